@@ -17,6 +17,11 @@ func C02(thorough bool, yield func(Program)) {
 	if thorough {
 		maxD = 5
 	}
+	sibLen := 3
+	if thorough {
+		sibLen = 4
+	}
+	c02Siblings(sibLen, yield)
 	routes := []string{"direct", "list", "map", "mapattr", "mapcb", "trycb", "callcb", "spawn", "fnspawn", "vmcall", "nestedcb"}
 	for d := 1; d <= maxD; d++ {
 		for o := 0; o < d; o++ {
@@ -28,7 +33,10 @@ func C02(thorough bool, yield func(Program)) {
 						rs = []string{"direct"} // the innermost function is called in place; there is no escaped closure
 					}
 					for _, route := range rs {
-						yield(c02Program(d, o, mode, write, route))
+						yield(c02Program(d, o, mode, write, route, false))
+						if route == "direct" || route == "mapcb" || route == "vmcall" {
+							yield(c02Program(d, o, mode, write, route, true))
+						}
 					}
 				}
 			}
@@ -36,10 +44,79 @@ func C02(thorough bool, yield func(Program)) {
 	}
 }
 
+// c02Siblings: three closures over one binding (inc, get, reset) escape from their defining call
+// and are then called in every order of up to maxLen calls; nested = the closures are created one
+// function level deeper (inside a helper that is called in place).
+func c02Siblings(maxLen int, yield func(Program)) {
+	names := []string{"inc", "get", "reset"}
+	for _, variant := range []int{0, 1, 2, 3} {
+		nested := variant&1 == 1
+		big := variant&2 == 2 // the defining function has more local slots than a frame holds inline
+		var rec func(seq []int)
+		rec = func(seq []int) {
+			if len(seq) > 0 {
+				mkClosures := []*N{
+					Var("inc", Func("", nil, Set1("c", Bin("+", Id("c"), Int(1))), Return(Id("c")))),
+					Var("get", Func("", nil, Return(Id("c")))),
+					Var("reset", Func("", P("v"), Set1("c", Id("v")), Return(Id("c")))),
+					Return(List(Id("inc"), Id("get"), Id("reset"))),
+				}
+				var mk *N
+				pre := []*N{Var("c", Id("start"))}
+				if big {
+					pre = append(padLocals(), pre...)
+				}
+				if nested {
+					mk = FuncDecl("mk", P("start"), append(pre, Var("helper", Func("", nil, mkClosures...)), Return(callE("helper")))...)
+				} else {
+					mk = FuncDecl("mk", P("start"), append(pre, mkClosures...)...)
+				}
+				st := []*N{mk, Var("a", callE("mk", Int(10))), Var("b", callE("mk", Int(100)))}
+				for k, i := range seq {
+					// alternate between the two independent instances to show that bindings are per call
+					inst := "a"
+					if k%2 == 1 {
+						inst = "b"
+					}
+					f := Index(Id(inst), Int(int64(i)))
+					if names[i] == "reset" {
+						st = append(st, emitE(Call(f, Int(int64(7+k)))))
+					} else {
+						st = append(st, emitE(Call(f)))
+					}
+				}
+				st = append(st, emitE(List(Call(Index(Id("a"), Int(1))), Call(Index(Id("b"), Int(1))))))
+				tag := ""
+				if nested {
+					tag = "" // helper is called in place: the capture is one level for the closures (c is owned by mk, two levels up)
+				}
+				yield(Program{Fam: "C02sib", Prog: st, Tag: tag, Meta: fmt.Sprintf("siblings nested=%v big-frame=%v calls=%v", nested, big, seq)})
+			}
+			if len(seq) == maxLen {
+				return
+			}
+			for i := range names {
+				rec(append(append([]int{}, seq...), i))
+			}
+		}
+		rec(nil)
+	}
+}
+
+// padLocals declares ten extra local variables, so that the function needs more local slots than a
+// frame stores inline (the VM switches to separately allocated storage above 8).
+func padLocals() []*N {
+	var out []*N
+	for i := 1; i <= 10; i++ {
+		out = append(out, Var(fmt.Sprintf("pad%d", i), Int(int64(i))))
+	}
+	return out
+}
+
 // chain reports whether level i (1 <= i <= d-1) returns the next function uncalled.
 func chainAt(mode, i int) bool { return mode&(1<<uint(i-1)) != 0 }
 
-func c02Program(d, o, mode int, write bool, route string) Program {
+func c02Program(d, o, mode int, write bool, route string, big bool) Program {
 	v := func(i int) string { return fmt.Sprintf("v%d", i) }
 	f := func(i int) string { return fmt.Sprintf("f%d", i) }
 	// innermost function (level d)
@@ -52,6 +129,9 @@ func c02Program(d, o, mode int, write bool, route string) Program {
 	// wrap levels d-1 .. 1
 	for i := d - 1; i >= 1; i-- {
 		var body []*N
+		if big {
+			body = append(body, padLocals()...)
+		}
 		body = append(body, Var(v(i), Bin("+", Bin("*", Id("a"), Int(10)), Int(int64(i)))))
 		if i == o {
 			body = append(body, Expr(Meth(Id("peeks"), "append", Func("", nil, Return(Id(v(i)))))))
@@ -147,5 +227,5 @@ func c02Program(d, o, mode int, write bool, route string) Program {
 		tag = "capture-across-returned-frame"
 	}
 	return Program{Fam: "C02", Prog: st, Names: []string{"v0"}, Tag: tag, Post: post,
-		Meta: fmt.Sprintf("depth=%d owner=%d mode=%b write=%v route=%s", d, o, mode, write, route)}
+		Meta: fmt.Sprintf("depth=%d owner=%d mode=%b write=%v route=%s big-frames=%v", d, o, mode, write, route, big)}
 }
